@@ -9,6 +9,18 @@ from .. import alloc
 from ..alloc import Engine, loc
 
 PROP = "C18"
+
+
+def always_returns(g, fv, eng):
+    """every return of g hands back the constant fv (directly or through a merge of constants)"""
+    rets = list(g.rets())
+    if not rets: return False
+    for r in rets:
+        if not r.ops: return False
+        vals = [r.ops[0]]
+        if vals[0]["k"] == "inst" and g.imap[vals[0]["v"]].op == "phi": vals = [c["v"] for c in g.imap[vals[0]["v"]]["incoming"]]
+        if not all(eng.is_const(x, fv) for x in vals): return False
+    return True
 # documented failure values that differ from the type default (0 / NULL / false)
 FAIL_OVERRIDE = {"varintDictBuild": -1, "varintDictGetStats": -1}
 # failure edges that continue with a *correct* result - each confirmed by reading (DESIGN App. C.1)
@@ -50,6 +62,10 @@ def analyse(mod, run, label, fallbacks=CONFIRMED_FALLBACKS, overrides=FAIL_OVERR
                 def reports_failure(v):
                     if v is None: return False
                     if eng.is_const(v, fv): return True
+                    if v["k"] == "inst" and fn.imap[v["v"]].op == "call":
+                        # `return discardShell_(vb);` - a release helper every return of which is the failure value
+                        g_ = mod.fn(fn.imap[v["v"]].get("callee") or "")
+                        if g_ is not None and g_.blocks and always_returns(g_, fv, eng): return True
                     # `p = malloc(n); if (p) fill(p); return p;` - on the failure edge the returned pointer is the NULL result itself
                     vv = v
                     while vv["k"] == "inst" and fn.imap[vv["v"]].op == "bitcast": vv = fn.imap[vv["v"]].ops[0]
